@@ -270,7 +270,10 @@ class BlockDiagNormal(ssm_impl_api.AbstractTreeNormal[BlockDiagTreeFlatten]):
         if self.mean_flat.ndim > 2:
             return func.vmap(BlockDiagNormal._std_batched)(self)
 
-        std_flat = func.vmap(func.vmap(linalg.vector_norm))(self.cholesky_flat)
+        # Like the dense model: row norms via qr_r, whose derivative is finite for
+        # zero rows (noise-free initial states); vector_norm's is NaN there.
+        std_flat = func.vmap(func.vmap(linalg.qr_r))(self.cholesky_flat[..., None])
+        std_flat = np.abs(std_flat.reshape(self.mean_flat.shape))
         return self.tree_flatten.unflatten_array(std_flat)
 
     def residual_whitened_rms_tree(self, u, /):
